@@ -3,7 +3,7 @@
     Proofs/RunnerSM_sweep.v, on the RunnerSM model (event scripts universally
     quantified). *)
 From InvokeVerif Require Import Model.RunnerSM Spec.C08Spec Spec.C14Spec Corr.RunnerCorr.
-From InvokeVerif Require Import Proofs.RunnerSM_facts Proofs.C08_sm Proofs.C14_sm Proofs.RunnerSM_sweep.
+From InvokeVerif Require Import Proofs.RunnerSM_facts Proofs.C08_sm Proofs.C14_sm Proofs.RunnerSM_sweep Proofs.C14_flagship.
 
 (** A timeout is in effect and expires while the command is still running (no
     worker is made to fail, no interrupt, readers get EOF): it is killed and
@@ -46,7 +46,49 @@ Theorem C14_timeout_source :
   forall kwarg config, timeout_ok kwarg config (effective_timeout kwarg config) = true.
 Proof. exact timeout_source. Qed.
 
-(** Flagship shape, as a finite sweep (a TEST, not the property): 128
+(** No timeout in effect: nothing is ever killed and no outcome is a timeout --
+    every configuration, every script (worker deaths and interrupts included). *)
+Theorem C14_no_timeout_untouched :
+  forall c script,
+    start_raises c = false -> c_timeout c = false ->
+    n_kills (snd (run_sm c script)) = 0 /\
+    (forall o, s_pc (fst (run_sm c script)) = PDone o -> o <> OTimedOut).
+Proof. exact no_timeout_untouched. Qed.
+
+(** "carrying the output captured so far": the reads captured for a stream are
+    exactly the reads delivered to it before its EOF. *)
+Theorem C14_captured_reads :
+  forall c script w,
+    start_raises c = false -> has_exc script = false -> has_kbd script = false -> w <> WIn ->
+    worker_exists c w = true ->
+    cntw w (snd (run_sm c script)) = count_chunks w script.
+Proof. exact captured_reads. Qed.
+
+(** The command finishes first and the timer does not fire during the run, pipes
+    held open or not: nothing killed; the normal outcome with the timer
+    disarmed -- or no outcome at all, and then only because a pipe is held. *)
+Theorem C14_timely_general_partial :
+  forall c script code,
+    start_raises c = false -> has_exc script = false -> has_kbd script = false -> no_timer script = true ->
+    exit_code script = Some code ->
+    n_kills (snd (run_sm c script)) = 0 /\
+    match s_pc (fst (run_sm c script)) with
+    | PDone o => o = normal_outcome c code /\ s_timer (fst (run_sm c script)) <> TArmed
+    | PHang => c_hold_out c || c_hold_err c = true
+    | _ => False
+    end.
+Proof. exact timely_general. Qed.
+
+(** Flagship: for EVERY configuration and EVERY event script, outside the two
+    catalogued defect regions ([guard14]: not (timeout in effect, the command
+    finishes first and the timer fires later in the script) F-C14a, not (timeout
+    expires while running and a pipe is held open) F-C14b) the model satisfies
+    the executable spec. *)
+Theorem C14_run_meets_spec_partial :
+  forall c script, guard14 c script = true -> C14Spec.spec_ok c script (observe (run_sm c script)) = true.
+Proof. exact run_meets_spec14. Qed.
+
+(** The same flagship statement as a finite sweep (a TEST, not the property): 128
     configurations x 2801 scripts of at most 4 events over a 7-event alphabet;
     outside the two catalogued defect regions the model satisfies the spec
     (including: the timed-out failure carries every read delivered). *)
